@@ -1,7 +1,8 @@
 (* C11/Spec.v — reference semantics of the covered InfluxQL SELECT grammar, evaluated
    directly over the raw points of the logical data set (no shards, no iterators).
 
-     SELECT f | count|sum|mean|min|max|first|last|spread|median (f)
+     SELECT f | count|sum|mean|min|max|first|last|spread|median|mode|distinct (f)
+              | percentile(f, N) | count(distinct(f))
      FROM m WHERE time >= tmin AND time <= tmax [AND tag =|!= 'v']
      [GROUP BY [time(interval[,offset])] [,tag...]] [fill(null|none|<n>|previous|linear)]
      [ORDER BY time DESC] [LIMIT n] [OFFSET n] [SLIMIT n] [SOFFSET n]
@@ -15,7 +16,9 @@
      1. select points (time range, tag predicate);
      2. canonical ascending stream of (tag-set key, time, value):
           raw       : the selected points ordered by (key, time, value);
-          aggregate : one element per non-empty (key, window), ordered by (key, window);
+          aggregate : one element per non-empty (key, window), ordered by (key, window)
+                      (distinct: one element per distinct value of the window; percentile: none
+                      when the rank falls outside the window's points);
      3. SLIMIT/SOFFSET over the ascending tag sets of the measurement that match the tag
         predicate; ORDER BY time DESC reverses the stream (tag sets and times);
      4. per tag set: fill over the window grid, then OFFSET/LIMIT; empty series vanish. *)
@@ -30,7 +33,9 @@ Inductive ftype := TFloat | TInt | TStr | TBool.
 Definition tags := list N.
 Record point := mkW { p_tags : tags; p_time : Z; p_val : Z }.
 
-Inductive fn := FRaw | FCount | FSum | FMean | FMin | FMax | FFirst | FLast | FSpread | FMedian.
+(* FPercentile p2: percentile(f, p2/2), i.e. the argument N or N.5 doubled *)
+Inductive fn := FRaw | FCount | FSum | FMean | FMin | FMax | FFirst | FLast | FSpread | FMedian
+              | FDistinct | FMode | FPercentile (p2 : Z) | FCountDistinct.
 Inductive fill := FillNull | FillNone | FillNum (z : Z) | FillPrev | FillLinear.
 
 Record stmt := mkStmt {
@@ -236,10 +241,107 @@ Definition agg (ft : ftype) (f : fn) (l : list tv) : option (option Z * rval) :=
   | _ => option_map (finalize ft f) (pfold ft f l)
   end.
 
+(* ---------- mode, percentile, distinct, count(distinct): evaluated on the group's points
+   ordered by value and, within a value, by time ---------- *)
+
+Definition vt := (Z * Z)%type.                      (* value, time *)
+Definition swap (p : tv) : vt := (snd p, fst p).
+Definition vt_cmp : vt -> vt -> comparison := lexc Z.compare Z.compare.
+Definition vt_leb : vt -> vt -> bool := leb_of vt_cmp.
+Definition vsort (l : list tv) : list vt := isort vt_leb (map swap l).
+
+(* mode(f), numbers and strings (query/call_iterator.go *ModeReduceSlice after the repairs):
+   one pass over the points sorted by (value, time).  State: the best run so far (frequency,
+   value, time of its first point) and the current run.  A run replaces the best one when it is
+   more frequent, or as frequent and its first time is not later: the result is the value of
+   highest frequency, ties go to the value seen earliest, then to the greater value. *)
+Record mstate := mkM { m_mostf : Z; m_mostv : Z; m_mostt : Z; m_curf : Z; m_curv : Z; m_curt : Z }.
+
+Definition mode_step (st : mstate) (p : vt) : mstate :=
+  let same := fst p =? st.(m_curv) in
+  let cf := (if same then st.(m_curf) else 0) + 1 in
+  let cv := if same then st.(m_curv) else fst p in
+  let ct := if same then st.(m_curt) else snd p in
+  if (cf <? st.(m_mostf)) || ((st.(m_mostf) =? cf) && (st.(m_mostt) <? ct))
+  then mkM st.(m_mostf) st.(m_mostv) st.(m_mostt) cf cv ct
+  else mkM cf (fst p) ct cf cv ct.
+
+Definition mode_scan (sl : list vt) : option Z :=
+  match sl with
+  | [] => None
+  | a0 :: _ => Some (m_mostv (fold_left mode_step sl (mkM 0 (fst a0) (snd a0) 0 (fst a0) (snd a0))))
+  end.
+
+(* booleans (BooleanModeReduceSlice): true unless false is strictly more frequent *)
+Definition mode_bool (sl : list vt) : option Z :=
+  match sl with
+  | [] => None
+  | _ => let nf := length (filter (fun p => fst p =? 0) sl) in
+         let nt := length (filter (fun p => negb (fst p =? 0)) sl) in
+         Some (if Nat.leb nf nt then 1 else 0)
+  end.
+
+Definition mode_sorted (ft : ftype) (sl : list vt) : option Z :=
+  match sl with
+  | [p] => Some (fst p)                             (* len(a) == 1: the point itself *)
+  | _ => match ft with TBool => mode_bool sl | _ => mode_scan sl end
+  end.
+
+(* percentile(f, p2/2): nearest rank, index floor(n*p/100 + 0.5) - 1 in the points sorted by
+   (value, time) (after the repair); no result when the index falls outside the group *)
+Definition pct_index (n p2 : Z) : Z := (n * p2 + 100) / 200 - 1.
+Definition percentile_sorted (p2 : Z) (sl : list vt) : option vt :=
+  let n := Z.of_nat (length sl) in
+  let i := pct_index n p2 in
+  if (i <? 0) || (n <=? i) then None else nth_error sl (Z.to_nat i).
+
+(* distinct(f): one representative per value - the point that arrives first, i.e. the earliest
+   one when scanning forward and the latest one under ORDER BY time DESC - listed in the scan
+   order of the representatives' times, equal times by ascending value *)
+Fixpoint run_firsts (prev : option Z) (sl : list vt) : list vt :=
+  match sl with
+  | [] => []
+  | x :: r => if match prev with Some v => v =? fst x | None => false end
+              then run_firsts prev r else x :: run_firsts (Some (fst x)) r
+  end.
+Definition run_lasts (sl : list vt) : list vt := dedup (fun a b => fst a =? fst b) sl.
+
+Definition dt_leb (desc : bool) (a b : vt) : bool :=
+  if desc
+  then (snd b <? snd a) || ((snd a =? snd b) && (fst a <=? fst b))
+  else (snd a <? snd b) || ((snd a =? snd b) && (fst a <=? fst b)).
+
+Definition distinct_sorted (desc : bool) (sl : list vt) : list Z :=
+  map fst (isort (dt_leb desc) (if desc then run_lasts sl else run_firsts None sl)).
+
+(* all results of one (key, window) group, in output order for the direction [desc];
+   only distinct() yields more than one *)
+Definition aggs_sorted (ft : ftype) (f : fn) (desc : bool) (sl : list vt) : list (option Z * rval) :=
+  match f with
+  | FDistinct => map (fun v => (None, typed ft v)) (distinct_sorted desc sl)
+  | FMode => match mode_sorted ft sl with Some v => [(None, typed ft v)] | None => [] end
+  | FPercentile p2 => match percentile_sorted p2 sl with
+                      | Some p => [(Some (snd p), typed ft (fst p))]
+                      | None => []
+                      end
+  | FCountDistinct => match sl with
+                      | [] => []
+                      | _ => [(None, RInt (Z.of_nat (length (distinct_sorted desc sl))))]
+                      end
+  | _ => []
+  end.
+
+Definition is_sorted_fn (f : fn) : bool :=
+  match f with FDistinct | FMode | FPercentile _ | FCountDistinct => true | _ => false end.
+
+Definition aggs (ft : ftype) (f : fn) (desc : bool) (l : list tv) : list (option Z * rval) :=
+  if is_sorted_fn f then aggs_sorted ft f desc (vsort l)
+  else match agg ft f l with Some x => [x] | None => [] end.
+
 (* type of the output column (for fill values) *)
 Definition out_float (ft : ftype) (f : fn) : bool :=
   match f with
-  | FCount => false
+  | FCount | FCountDistinct => false
   | FMean | FMedian => true
   | _ => match ft with TFloat => true | _ => false end
   end.
@@ -272,11 +374,13 @@ Definition row_time (s : stmt) (g : grp) (sel_time : option Z) : Z :=
   then match sel_time with Some t => t | None => if s.(s_tmin) =? c11_min_time then 0 else s.(s_tmin) end
   else if snd g =? c11_min_time then 0 else snd g.
 
+Definition emit (s : stmt) (g : grp) (x : option Z * rval) : relem := (fst g, row_time s g (fst x), snd x).
+
+(* the ascending canonical stream: under ORDER BY time DESC eval reverses it, so a group's
+   results are listed here in the reverse of their output order *)
 Definition agg_stream (ft : ftype) (s : stmt) (pts : list point) : list relem :=
-  flat_map (fun g => match agg ft s.(s_fn) (members s g pts) with
-                     | Some (st, v) => [(fst g, row_time s g st, v)]
-                     | None => []
-                     end) (groups s pts).
+  flat_map (fun g => let r := map (emit s g) (aggs ft s.(s_fn) s.(s_desc) (members s g pts)) in
+                     if s.(s_desc) then rev r else r) (groups s pts).
 
 Definition ref_stream (ft : ftype) (s : stmt) (pts : list point) : list relem :=
   match s.(s_fn) with FRaw => raw_stream ft s pts | _ => agg_stream ft s pts end.
@@ -328,7 +432,12 @@ Definition linear_val (isf : bool) (tp tn t : Z) (vp vn : rval) : rval :=
 (* the rows of one tag set, in output order (ascending or descending window starts) *)
 Definition fill_rows (ft : ftype) (s : stmt) (real : list (Z * rval)) : list (Z * rval) :=
   let D := s.(s_interval) in
-  let f := match s.(s_fill), s.(s_fn) with FillNull, FCount => FillNum 0 | x, _ => x end in
+  (* count() fills with 0 instead of null; distinct() gets no fill iterator at all *)
+  let f := match s.(s_fill), s.(s_fn) with
+           | _, FDistinct => FillNone
+           | FillNull, FCount | FillNull, FCountDistinct => FillNum 0
+           | x, _ => x
+           end in
   match f with
   | FillNone => real
   | _ =>
